@@ -1,6 +1,6 @@
 (* C01 - interface files parse to a tree that mirrors the source exactly. *)
 From Coq Require Import String Ascii List Bool Arith.
-From Wrap Require Import Base.Str Syntax.Ast Parse.Peg Parse.Build Parse.Spec.
+From Wrap Require Import Base.Str Syntax.Ast Inst.Model Parse.Peg Parse.Build Parse.Spec Parse.RoundTrip.
 From Wrap Require gen.Grammar.
 Import ListNotations.
 Open Scope string_scope.
@@ -20,3 +20,32 @@ Print Assumptions C01_comment_is_modelled.
 Theorem C01_tabs_expanded : Grammar.tabs_expanded = true.
 Proof. reflexivity. Qed.
 Print Assumptions C01_tabs_expanded.
+
+(* Printing a type and parsing it back.  For every type of the parse tree - a one-word basic type, or a namespace path
+   of identifiers whose first component is no keyword of the dialect; const, `*`, `@`, `&`; template arguments nested
+   to ANY depth below the node constructors' own recursion limit - the text with one blank before every token is
+   parsed by the grammar's `Type ^ TemplatedType` into a match tree from which Type / TemplatedType.from_parse_result
+   rebuild exactly that type, whatever follows (end of text, or a token starting with none of * @ & : <), for every
+   fuel from fuel_of t on.  With C12_layout_independent the same holds for every layout of the same skeleton. *)
+Theorem C01_type_roundtrip : forall t, wf_ty t -> depth t < depth_fuel -> forall p r f, follow r -> fuel_of t <= f ->
+  exists v p', interp spec_grammar f TY {| pk := p; rest := render (ty_toks t) r |} = Match [([], v)] {| pk := p'; rest := r |}
+               /\ b_type v = Ok t.
+Proof. exact type_roundtrip. Qed.
+Print Assumptions C01_type_roundtrip.
+
+(* non-vacuity: const gtsam::Foo<int, std::vector<Bar*>, ns::a::K<double&>>&  *)
+Definition tn (ns : list string) (n : string) : typename := Typename ns (NStr n) [].
+Definition sample_type : ty :=
+  TTempl ["gtsam"] (NStr "Foo")
+         [TPlain (tn [] "int") false PNone true;
+          TTempl ["std"] (NStr "vector") [TPlain (tn [] "Bar") false PShared false] false PNone;
+          TTempl ["ns"; "a"] (NStr "K") [TPlain (tn [] "double") false PRef true] true PRaw]
+         true PRef.
+Example C01_type_roundtrip_nonvacuous :
+  wf_ty sample_type /\ depth sample_type = 2 /\
+  string_of (render (ty_toks sample_type) []) =
+    " const gtsam :: Foo < int , std :: vector < Bar * > , const ns :: a :: K < double & > @ > &".
+Proof.
+  repeat split; try (vm_compute; tauto); try discriminate; try reflexivity;
+    try (repeat constructor; reflexivity); try (vm_compute; intuition discriminate).
+Qed.
